@@ -421,6 +421,16 @@ func newVGrandpaState(tree *vTree, setID uint64, voters []types.GrandpaVoter, la
 	}
 }
 
+// changeSet models an applied authority set change: the grandpa state now
+// reports setID as the current set with the given voters. The service picks it
+// up in its next initiateRound (updateAuthorities).
+func (gs *vGrandpaState) changeSet(setID uint64, voters []types.GrandpaVoter) {
+	gs.mu.Lock()
+	defer gs.mu.Unlock()
+	gs.setID = setID
+	gs.auths[setID] = voters
+}
+
 func (gs *vGrandpaState) GetCurrentSetID() (uint64, error) {
 	gs.mu.Lock()
 	defer gs.mu.Unlock()
